@@ -254,4 +254,30 @@ def allSVs (I : Inst) : List SV := I.src ++ I.tgt ++ I.instrs.flatMap (·.kind.s
 def Dom (I : Inst) (x : SV) : Prop :=
   x ∈ allSVs I ∨ ((∃ ins ∈ I.instrs, ins.kind = .pushBasic) ∧ ∃ n : Int, x = .num n ∧ 0 ≤ n ∧ n < I.intLimit)
 
+/-! ### values identify stack variables: the constraints and data that ensure it -/
+
+def hasPushBasic (I : Inst) : Bool := I.instrs.any fun ins => ins.kind == .pushBasic
+
+/-- executable part of the premises of `inj_of_nodup`: every stack variable of the instance has a term; integer
+    constants occur only when the basic PUSH is available, and then within its range -/
+def svsOk (I : Inst) : Bool :=
+  (allSVs I).all fun x =>
+    match x with
+    | .var s => (I.term.lookup s).isSome
+    | .num n => hasPushBasic I && decide (0 ≤ n) && decide (n < I.intLimit)
+
+/-- uninterpreted term encodings: `expressions_are_distinct(*created_stack_vars)` -/
+def distinctRaw (I : Inst) : F := .conn .distinct (I.term.map (·.2))
+
+/-- `-term-encoding stack_vars`: `initialize_stack_variables(sf, initial)` -/
+def initVarsRaw (I : Inst) (initial : Int) : List F :=
+  I.term.zipIdx.map fun (p, i) => F.conn .eq [p.2, .num (initial + i)]
+
+/-- `-term-encoding int`: the table maps stack variables to pairwise different integers (beyond the range of
+    pushed constants when the basic PUSH is available) — a property of the instance data, checked by evaluation -/
+def intTermsOk (I : Inst) : Bool :=
+  (I.term.all fun p => match p.2 with | .num _ => true | _ => false) &&
+  pairwiseDistinct (I.term.map fun p => match p.2 with | .num k => k | _ => 0) &&
+  (!hasPushBasic I || I.term.all fun p => match p.2 with | .num k => decide (I.intLimit ≤ k) | _ => false)
+
 end GasolVerif.Enc
